@@ -207,6 +207,70 @@ def run(ctx):
     if ctx.exhaustive is None:
         ctx.exhaustive = True
 
+    # ---- many requests one after the other on ONE connection ---------------------------------------------------
+    # (what a request ends with is decided by the answer to that request: not by what earlier requests on the same
+    # streams were answered with - -32000 is "connection closed" in one vocabulary and an ordinary server-defined code
+    # in the other, and the library's own HTTP/SSE transports use it for a single request's timeout)
+    if ctx.shard[0] == 0:
+        plans = [[-32000, -32603, -32000, 5, -32601, "ok", -32000, -32002, -32700, "ok"],
+                 [-32603, -32603, "ok", -32001, "ok", -32600, -32000, "ok", 7, -32602],
+                 ["ok", -32000, -32000, -32000, -32603, 0, "ok", -1, -32099, -32000]]
+
+        async def same_connection(plan):
+            rs, rr = anyio.create_memory_object_stream(4)
+            ws, wr = anyio.create_memory_object_stream(4)
+            outs = []
+
+            async def server():
+                k = 0
+                async for req in wr:
+                    rid = getattr(req, "id", None)
+                    if rid is None:
+                        continue
+                    step = plan[k]
+                    k += 1
+                    wire = ({"jsonrpc": "2.0", "id": rid, "result": {"n": k}} if step == "ok" else
+                            {"jsonrpc": "2.0", "id": rid, "error": {"code": step, "message": f"said {step} at {k}"}})
+                    from chuk_mcp.protocol.messages.json_rpc_message import parse_message
+                    rs.send_nowait(parse_message(wire))
+            st = asyncio.create_task(server(), name="vf-server")
+            for k, step in enumerate(plan):
+                try:
+                    outs.append((k, step, "return", await send_message(rr, ws, "tools/list", None, timeout=1.0)))
+                except BaseException as e:  # noqa
+                    if isinstance(e, (KeyboardInterrupt, SystemExit)):
+                        raise
+                    outs.append((k, step, "raise", e))
+            st.cancel()
+            for s_ in (rs, rr, ws, wr):
+                s_.close()
+            return outs
+        for plan in plans:
+            case = {"same_connection": plan}
+            try:
+                outs, _ = run_virtual(same_connection, plan)
+            except HangDetected as e:
+                ctx.violation("hang", str(e), case)
+                continue
+            for k, step, kind, val in outs:
+                ctx.count("error_responses_delivered")
+                ctx.count("same_connection_requests")
+                if step == "ok":
+                    if kind != "return" or not (isinstance(val, dict) and val.get("n") == k + 1):
+                        ctx.violation("result_not_returned", f"request {k + 1} of {plan} on one connection was answered with a result; "
+                                      f"the call gave {kind} {val!r}", case)
+                    continue
+                want_perm = step in PERMANENT
+                if kind == "return":
+                    ctx.violation("error_completed_normally", f"request {k + 1} of {plan}: error {step} returned {val!r}", case)
+                elif type(val) is not (E.NonRetryableError if want_perm else E.RetryableError):
+                    ctx.violation("wrong_exception_class", f"request {k + 1} of {plan} on one connection, answered {step}: raised "
+                                  f"{type(val).__name__} ({val!r}), expected {'NonRetryableError' if want_perm else 'RetryableError'}", case)
+                elif not (type(val.code) is int and val.code == step) or f"said {step} at {k + 1}" not in str(val):
+                    ctx.violation("code_not_carried", f"request {k + 1} of {plan} on one connection, answered {step} "
+                                  f"('said {step} at {k + 1}'): exception carries code {val.code!r}, text {str(val)!r}", case)
+            ctx.record(case, shape=[type(v).__name__ for _, _, _, v in outs], nontrivial=True, cls="same_connection")
+
     # ---- the same server text under many codes, one after the other in ONE process --------------------------
     # (whatever is remembered between error responses must be remembered under the whole (code, text) pair: the
     # sequence walks through codes whose built-in hashes coincide, -1/-2 and n / n +- (2**61 - 1))
